@@ -21,7 +21,7 @@ var panicKinds = []string{"string", "error", "custom", "nilmap", "nilderef", "in
 
 func genC13(r *simrt.RNG, tier string, variant int) Plan {
 	p := Plan{Family: "healthy", Params: map[string]int64{}}
-	p.Servers = []ServerPlan{{Addr: "srv0:1", PingNs: Pick(r, []int64{0, -1}), Reverse: r.Bool(0.4)}}
+	p.Servers = []ServerPlan{{Addr: "srv0:1", PingNs: Pick(r, []int64{0, -1}), Reverse: r.Bool(0.4), Tracer: r.Bool(0.3)}}
 	p.Clients = []ClientPlan{{Name: "A", Kind: "ws", Server: 0, Reverse: p.Servers[0].Reverse}}
 	switch r.Intn(3) {
 	case 0:
